@@ -404,10 +404,10 @@ pub fn rand_lef(rng: &mut Rng, cfg: &LefCfg) -> GenLef {
         lib.no_wire_extension_at_pin = Some(pick_t(rng, t_onoff()));
     }
     if rng.chance(1, 2) {
-        lib.bus_bit_chars = Some(*rng.pick(&[('[', ']'), ('<', '>'), ('(', ')'), ('{', '}')]));
+        lib.bus_bit_chars = Some(*rng.pick(&[('[', ']'), ('<', '>'), ('(', ')'), ('{', '}'), ('[', ']'), ('<', '>'), ('\u{AB}', '\u{BB}'), ('\u{27E8}', '\u{27E9}'), ('[', '\u{BB}')]));
     }
     if rng.chance(1, 2) {
-        lib.divider_char = Some(*rng.pick(&['/', '|', '.', ':']));
+        lib.divider_char = Some(*rng.pick(&['/', '|', '.', ':', '/', '|', '\u{B7}', '\u{2192}']));
     }
     if rng.chance(1, 2) {
         let d = |rng: &mut Rng| if rng.bool() { Some(rand_pos_dec(rng)) } else { None };
